@@ -45,6 +45,15 @@ THEOREMS = [
     "Lena.C01.sliceS_ofList",
     "Lena.C01.reverseS_ofList",
     "Lena.C01.run_callables",
+    "Lena.C01.rerunStored_append",
+    "Lena.C01.seq_rerun_append",
+    "Lena.C01.rerun_nil",
+    "Lena.C01.runIfH_const",
+    "Lena.C01.splitH_seq",
+    "Lena.C01.source_of_sequence",
+    "Lena.C01.mkBranch_error",
+    "Lena.C01.accFillQ_noFloat",
+    "Lena.C01.accComputeQ_noFloat",
 ]
 TRUSTED = [
     "Lean 4.33.0 kernel; axioms limited to propext, Classical.choice, Quot.sound (audited by #print axioms on every run)",
@@ -486,7 +495,8 @@ def element_facts(els):
             facts.append({"ctor": err["e"]})
         else:
             fl = flags_of(el)
-            facts.append({"ctor": None, "nodata": fl["nodata"], "conv": convertible(fl), "flags": fl})
+            mode = "run" if fl["run"] == 2 else "call" if fl["call"] else "fc" if (fl["fill"] == 2 and fl["compute"] == 2) else None
+            facts.append({"ctor": None, "nodata": fl["nodata"], "conv": convertible(fl), "mode": mode, "flags": fl})
     return facts
 
 
@@ -535,6 +545,58 @@ def run_impl(case):
                "ref": reference(els, flow, term),
                "shape": shape_of(els, case["brks"][-1])}
         return res
+    if op == "rerun":
+        els, k = case["els"], case["cut"]
+        flows = list(case["pasts"]) + [case["flow"]]
+
+        def runs(mk):
+            seq, err = _construct(mk)
+            if err:
+                return err
+            outs = []
+            for fl in flows:
+                o = observe(lambda: seq.run(make_flow(fl, None)))
+                outs.append(o)
+                if o["t"] is not None:
+                    break            # after an exception the objects are not run again
+            return outs
+        whole = runs(lambda: lena.core.Sequence(*[build(s) for s in els]))
+        nested = runs(lambda: lena.core.Sequence(lena.core.Sequence(*[build(s) for s in els[:k]]),
+                                                 lena.core.Sequence(*[build(s) for s in els[k:]])))
+        # hand-chained reference that re-uses its element objects
+        facts = element_facts(els)
+        ref = None
+        if all(f["ctor"] is None for f in facts) and all(f["nodata"] or f["conv"] for f in facts):
+            objs = [build(s) for s in els]
+            stages = [(el, flags_of(el)) for el in objs]
+            stages = [(el, fl) for el, fl in stages if not fl["nodata"]]
+
+            def chain(fl0):
+                cur = make_flow(fl0, None)
+                for el, fl in stages:
+                    if fl["run"] == 2:
+                        cur = el.run(cur)
+                    elif fl["call"]:
+                        cur = (lambda f, it: (f(v) for v in it))(el, cur)
+                    else:
+                        for v in cur:
+                            el.fill(v)
+                        cur = el.compute()
+                return iter(cur)
+            ref = []
+            for fl0 in flows:
+                o = observe(lambda: chain(fl0))
+                ref.append(o)
+                if o["t"] is not None:
+                    break
+        return {"whole": whole, "nested": nested, "ref": ref,
+                "facts": [{k2: v for k2, v in f.items() if k2 != "flags"} for f in facts]}
+    if op == "splits":
+        seq, err = _construct(lambda: lena.core.Sequence(
+            lena.core.Split([tuple(build(s) for s in b) for b in case["branches"]], bufsize=case["bufsize"])))
+        if err:
+            return err
+        return observe(lambda: seq.run(make_flow(case["flow"], case.get("term"))))
     if op == "source0":
         src, err = _construct(lambda: lena.core.Source())
         return err if err else {"built": True}
@@ -586,6 +648,9 @@ def model_requests(case):
         reqs.append({"op": "tree", "prog": nest(els, b0), "flow": flow, "term": term})
         reqs.append({"op": "fold", "prog": nest(els, b0), "flow": flow, "term": term})
         reqs.append({"op": "flats", "prog": nest(els, case["brks"][-1])})
+        reqs.append({"op": "sound", "prog": els})
+        if els and all(e["k"] in ("call", "var") for e in els):
+            reqs.append({"op": "callall", "prog": els, "flow": flow, "term": term})
         return reqs
     if op == "source":
         first, els = case["first"], case["els"]
@@ -601,6 +666,13 @@ def model_requests(case):
         return [{"op": "flags", "spec": case["spec"]}]
     if op == "source0":
         return [{"op": "source", "args": []}]
+    if op == "splits":
+        return [{"op": "splits", "branches": case["branches"], "bufsize": case["bufsize"], "flow": case["flow"],
+                 "term": case.get("term")},
+                {"op": "run", "prog": [{"k": "split", "branches": case["branches"], "bufsize": case["bufsize"]}],
+                 "flow": case["flow"], "term": case.get("term")}]
+    if op == "rerun":
+        return [{"op": "rerun", "prog": case["els"], "pasts": case["pasts"], "flow": case["flow"], "cut": case["cut"]}]
     raise ValueError(op)
 
 
@@ -648,6 +720,19 @@ def compare(case, res, replies):
         if replies[k + 2].get("nargs") != res["shape"]["len"] or (
                 res["shape"]["len"] is not None and replies[k + 2].get("first") != res["shape"]["first"]):
             return f"len / flatten(first argument): impl {res['shape']} vs model {replies[k + 2]} (bracketing {case['brks'][-1]})"
+        snd = replies[k + 3]
+        facts = res["facts"]
+        if all(f["ctor"] is None for f in facts):
+            if all(f["nodata"] or f["conv"] for f in facts):
+                want = [f["mode"] for f in facts if not f["nodata"]]
+                if snd.get("modes") != want or not all(snd.get("sound", [False])):
+                    return f"conversion per data element: documented precedence gives {want}, model {snd}"
+            elif snd != {"e": "LenaTypeError", "phase": "init"}:
+                return f"unconvertible argument: model {snd}"
+        if len(replies) > k + 4:
+            m = _canon_reply(replies[k + 4])
+            if "e" not in res["variants"][0] and _differs(m, res["variants"][0]):
+                return f"impl {res['variants'][0]} vs model mapS (callAll es) {m}"
         return None
     if op == "source":
         for i, cut in enumerate(case["cuts"]):
@@ -657,6 +742,23 @@ def compare(case, res, replies):
         return None
     if op == "source0":
         return None if res == replies[0] else f"Source(): impl {res} vs model {replies[0]}"
+    if op == "splits":
+        for nm, m in (("splitS", replies[0]), ("splitH", replies[1])):
+            if _differs(_canon_reply(m), res):
+                return f"Split.run: impl {res} vs model {nm} {_canon_reply(m)}"
+        return None
+    if op == "rerun":
+        m = replies[0]
+        w = res["whole"]
+        if "e" in m or not isinstance(w, list):
+            return None if m == w else f"impl {w} vs model {m}"
+        outs_m = [_canon_reply(x) for x in m["pasts"]] + [_canon_reply(m["whole"])]
+        for i, o in enumerate(w):
+            if _differs(outs_m[i], o):
+                return f"run {i} of the re-used sequence: impl {o} vs model (Seq.rerun) {outs_m[i]}"
+        if len(w) == len(outs_m) and _differs(_canon_reply(m["split"]), w[-1]):
+            return f"last run: impl {w[-1]} vs model (split form of seq_rerun_append) {_canon_reply(m['split'])}"
+        return None
     if op == "flags":
         m = replies[0]
         if "e" in res or "e" in m:
@@ -688,6 +790,35 @@ def oracle(case, res):
     op = case["op"]
     if op == "flags":
         return None
+    if op == "rerun":
+        exp = _init_expectation(res["facts"])
+        what = f"elements {case['els']} flows {case['pasts'] + [case['flow']]} (one Sequence object, run repeatedly)"
+        for nm, v in (("Sequence(*els)", res["whole"]),
+                      (f"Sequence(Sequence(*els[:{case['cut']}]), Sequence(*els[{case['cut']}:]))", res["nested"])):
+            if exp == "reject":
+                if v != {"e": "LenaTypeError", "phase": "init"}:
+                    return f"{nm}: unconvertible argument must be rejected with LenaTypeError at construction, got {v}; {what}"
+            elif exp == "ctor":
+                if not (isinstance(v, dict) and v.get("phase") == "init"):
+                    return f"{nm}: an element constructor raises, but got {v}; {what}"
+            elif not isinstance(v, list):
+                return f"{nm}: every argument is convertible but construction raised {v}; {what}"
+            elif any(o["t"] == "LenaTypeError" for o in v):
+                return f"{nm}: LenaTypeError raised during a run: {v}; {what}"
+        if exp != "ok":
+            return None
+        if res["whole"] != res["nested"]:
+            return f"regrouping changes the result of a repeated run: Sequence(*els) gives {res['whole']}, nested at {case['cut']} gives {res['nested']}; {what}"
+        ref = res["ref"]
+        if ref is not None:
+            for i, (o, r) in enumerate(zip(res["whole"], ref)):
+                if r["t"] is None and (o["t"] is not None or o["r"] != r["r"]):
+                    return f"run {i}: Sequence.run gives {o} but the hand-chained elements give {r['r']}; {what}"
+                if r["t"] is not None and o["t"] is None:
+                    return f"run {i}: the hand-chained elements raise {r['t']} but Sequence.run completed with {o['r']}; {what}"
+        return None
+    if op == "splits":
+        return None          # Split's schedule is the subject of C03; here the two model forms are tied to the code
     if op == "source0":
         if res != {"e": "LenaTypeError", "phase": "init"}:
             return f"Source() without arguments must raise LenaTypeError at construction, got {res}"
@@ -1138,14 +1269,14 @@ def gen_cases(ctx):
             yield ({"op": "regroup", "els": [a], "flow": fl, "term": term, "brks": [[0], [[0]]]})
             yield ({"op": "source", "first": {"k": "gen", "flow": fl}, "els": [a, inc], "cuts": [0, 1, 2, 3]})
     # all bracketings of random lists
-    plan = [(2, 30), (3, 40), (4, 30)] if not thorough else [(2, 200), (3, 400), (4, 300), (5, 150)]
+    plan = [(2, 30), (3, 40), (4, 30)] if not thorough else [(2, 200), (3, 300), (4, 200), (5, 60)]
     for n, count in plan:
         brks = all_bracketings(n)
         for _ in range(count):
             els = gen_prog(rng, n)
             yield ({"op": "regroup", "els": els, "flow": gen_flow(rng), "term": gen_term(rng), "brks": brks})
     # ---- sampled ------------------------------------------------------------------------------------
-    n_rand = 2500 if not thorough else 150000
+    n_rand = 2500 if not thorough else 60000
     for _ in range(n_rand):
         n = rng.choice([0, 1, 2, 2, 3, 3, 4, 4, 5, 6, 7, 8])
         els = gen_prog(rng, n)
@@ -1155,7 +1286,32 @@ def gen_cases(ctx):
         if case["term"] is None and rng.random() < 0.3:
             case["lst"] = True       # Sequence.run is handed the list itself, not an iterator over it
         yield (case)
-    n_src = 1000 if not thorough else 50000
+    # one Sequence object run several times (its elements keep their state): the whole program is a rerun region
+    n_rerun = 700 if not thorough else 15000
+    for _ in range(n_rerun):
+        n = rng.choice([1, 1, 2, 2, 3, 3, 4, 5])
+        st = new_state(rerun=True)
+        els = [gen_elem(rng, st, 0) for _ in range(n)]
+        yield ({"op": "rerun", "els": els, "pasts": [gen_flow(rng, 5) for _ in range(rng.choice([1, 1, 2]))],
+                "flow": gen_flow(rng, 5), "cut": rng.randint(0, n)})
+    # Split over stateless sequence branches: the simple schedule splitS and the general splitH against the code
+    for _ in range(300 if not thorough else 5000):
+        bst = new_state(rerun=True, stateless=True)
+        branches = []
+        for _b in range(rng.choice([0, 1, 2, 2, 3])):
+            b = []
+            for _e in range(rng.choice([0, 1, 1, 2, 3])):
+                for _try in range(20):
+                    e = gen_elem(rng, bst, 1)
+                    if not fc_capable(e):
+                        break
+                else:
+                    e = {"k": "call", "f": "ident"}
+                b.append(e)
+            branches.append(b)
+        yield ({"op": "splits", "branches": branches, "bufsize": rng.choice([None, 1, 2, 3, 4, 1000, 0]),
+                "flow": gen_flow(rng), "term": gen_term(rng)})
+    n_src = 1000 if not thorough else 20000
     for _ in range(n_src):
         n = rng.choice([0, 1, 2, 3, 4, 5, 6])
         els = gen_prog(rng, n)
@@ -1205,6 +1361,11 @@ def _depth(b):
 def nontrivial(case, res):
     if case["op"] in ("flags", "source0"):
         return False
+    if case["op"] == "splits":
+        return bool(res.get("r")) or res.get("t") is not None
+    if case["op"] == "rerun":
+        w = res["whole"]
+        return isinstance(w, list) and len(w) >= 2 and any(o["r"] or o["t"] for o in w)
     v = res["variants"][0] if res["variants"] else {}
     n_data = sum(1 for f in res["facts"] if f["ctor"] is None and not f["nodata"])
     return n_data >= 2 and ("e" in v or bool(v.get("r")) or v.get("t") is not None)
@@ -1212,7 +1373,7 @@ def nontrivial(case, res):
 
 def classify(case, res):
     op = case["op"]
-    if op in ("flags", "source0"):
+    if op in ("flags", "source0", "splits"):
         return ["op:" + op]
     labels = ["op:" + op]
     ks = []
@@ -1220,6 +1381,10 @@ def classify(case, res):
         _kinds(s, ks)
     labels += ["el:" + k for k in sorted(set(ks))]
     labels.append("len:%d" % len(case["els"]))
+    if op == "rerun":
+        w = res["whole"]
+        labels.append("rerun:" + ("init-error" if not isinstance(w, list) else "runs=%d" % len(w)))
+        return labels
     v = res["variants"][0] if res["variants"] else {}
     if "e" in v:
         labels.append("init:" + v["e"])
@@ -1279,6 +1444,17 @@ def shrink(case):
                         yield dict(case, els=case["els"][:i] + [e2] + case["els"][i + 1:])
             if e["k"] not in ("call",):
                 yield dict(case, els=case["els"][:i] + [{"k": "call", "f": "ident"}] + case["els"][i + 1:])
+    elif op == "rerun":
+        for i in range(len(case["pasts"])):
+            yield dict(case, pasts=case["pasts"][:i] + case["pasts"][i + 1:])
+        for i in range(len(case["els"])):
+            els = case["els"][:i] + case["els"][i + 1:]
+            yield dict(case, els=els, cut=min(case["cut"], len(els)))
+        for j, fl in enumerate(case["pasts"]):
+            for i in range(len(fl)):
+                yield dict(case, pasts=case["pasts"][:j] + [fl[:i] + fl[i + 1:]] + case["pasts"][j + 1:])
+        for i in range(len(case["flow"])):
+            yield dict(case, flow=case["flow"][:i] + case["flow"][i + 1:])
     elif op == "source":
         n = len(case["els"])
         if len(case["cuts"]) > 2:
